@@ -242,4 +242,134 @@ def facts : List (String × Bool) :=
   fqC.facts ++ frC.facts ++ fpC.facts ++ aliasFacts ++ sqrtFacts ++ curveFacts
 
 end C17
+
+/-! ## C16: parameters of the crate's BLS12-377 engine against the reference crate and their defining equations -/
+namespace C16
+open Gen
+
+mutual
+/-- structural equality of two literals read as (tuples / arrays of) elements of the field with modulus `m` -/
+def eqLit (m nl : Nat) : Lit → Lit → Bool
+  | .arr xs, .arr ys => eqLits m nl xs ys
+  | .tup _ xs, .tup _ ys => eqLits m nl xs ys
+  | .bool a, .bool b => a == b
+  | .unknown, _ => false
+  | .arr _, _ => false
+  | .tup _ _, _ => false
+  | .struct _, _ => false
+  | .bool _, _ => false
+  | a, b => !b.isUnknown && litVal m nl a == litVal m nl b
+def eqLits (m nl : Nat) : List Lit → List Lit → Bool
+  | [], [] => true
+  | x :: xs, y :: ys => eqLit m nl x y && eqLits m nl xs ys
+  | _, _ => false
+end
+
+/-! Fp2 = Fp[u]/(u² - β) with β = NONRESIDUE, as pairs -/
+def beta : Nat := fpLit ark_curve_bls12_377.Fp2Config_F2Config.NONRESIDUE
+
+def mul2 (a b : Nat × Nat) : Nat × Nat :=
+  (fadd p (fmul p a.1 b.1) (fmul p beta (fmul p a.2 b.2)), fadd p (fmul p a.1 b.2) (fmul p a.2 b.1))
+
+def pow2Aux : Nat → (Nat × Nat) → Nat → (Nat × Nat) → (Nat × Nat)
+  | 0, _, _, acc => acc
+  | fuel + 1, a, e, acc =>
+    if e = 0 then acc else pow2Aux fuel (mul2 a a) (e / 2) (if e % 2 = 1 then mul2 acc a else acc)
+
+def pow2 (a : Nat × Nat) (e : Nat) : Nat × Nat := pow2Aux e a e (1, 0)
+
+def fp2Of : Lit → Nat × Nat
+  | .tup _ [a, b] => (fpLit a, fpLit b)
+  | .one => (1, 0)
+  | .zero => (0, 0)
+  | _ => (0, 0)
+
+def arrOf : Lit → List Lit
+  | .arr xs => xs
+  | _ => []
+
+/-- `coeffs[i] = base^((k·p^i - k)/den)` for all i -/
+def frobOk (coeffs : List (Nat × Nat)) (base : Nat × Nat) (k den : Nat) : Bool :=
+  (coeffs.zipIdx).all (fun ci => ci.1 == pow2 base ((k * p ^ ci.2 - k) / den))
+
+def xi : Nat × Nat := fp2Of ark_curve_bls12_377.Fp6Config_F6Config.NONRESIDUE
+
+/-! short Weierstrass y² = x³ + b over Fp, affine with `none` = infinity -/
+def swAdd (P Q : Option (Nat × Nat)) : Option (Nat × Nat) :=
+  match P, Q with
+  | none, Q => Q
+  | P, none => P
+  | some (x1, y1), some (x2, y2) =>
+    if x1 == x2 && fadd p y1 y2 == 0 then none
+    else
+      let lam := if x1 == x2 then fmul p (fmul p 3 (fsq p x1)) (finv p (fmul p 2 y1))
+                 else fmul p (fsub p y2 y1) (finv p (fsub p x2 x1))
+      let x3 := fsub p (fsub p (fsq p lam) x1) x2
+      some (x3, fsub p (fmul p lam (fsub p x1 x3)) y1)
+
+def swMulAux : Nat → Option (Nat × Nat) → Nat → Option (Nat × Nat) → Option (Nat × Nat)
+  | 0, _, _, acc => acc
+  | fuel + 1, P, e, acc =>
+    if e = 0 then acc else swMulAux fuel (swAdd P P) (e / 2) (if e % 2 = 1 then swAdd acc P else acc)
+
+def swMul (P : Nat × Nat) (e : Nat) : Option (Nat × Nat) := swMulAux e (some P) e none
+
+def g1 : Nat × Nat := (fpLit ark_curve_bls12_377.top.G1_GENERATOR_X, fpLit ark_curve_bls12_377.top.G1_GENERATOR_Y)
+def blsX : Nat := ark_curve_bls12_377.Bls12Config_Config.X.limbsVal
+
+def facts : List (String × Bool) := [
+  ("Fp2 NONRESIDUE = reference (-5)", eqLit p 6 ark_curve_bls12_377.Fp2Config_F2Config.NONRESIDUE ref_bls_fields_fq2.Fp2Config_Fq2Config.NONRESIDUE),
+  ("Fp2 NONRESIDUE is a non-residue", powMod beta ((p - 1) / 2) p == p - 1),
+  ("FROBENIUS_COEFF_FP2_C1 = reference", eqLit p 6 ark_curve_bls12_377.Fp2Config_F2Config.FROBENIUS_COEFF_FP2_C1 ref_bls_fields_fq2.Fp2Config_Fq2Config.FROBENIUS_COEFF_FP2_C1),
+  ("FROBENIUS_COEFF_FP2_C1[i] = beta^((p^i-1)/2)",
+    ((arrOf ark_curve_bls12_377.Fp2Config_F2Config.FROBENIUS_COEFF_FP2_C1).map fpLit) == [1, powMod beta ((p - 1) / 2) p]),
+  ("Fp6 NONRESIDUE = reference (u)", eqLit p 6 ark_curve_bls12_377.Fp6Config_F6Config.NONRESIDUE ref_bls_fields_fq6.Fp6Config_Fq6Config.NONRESIDUE),
+  ("FROBENIUS_COEFF_FP6_C1 = reference", eqLit p 6 ark_curve_bls12_377.Fp6Config_F6Config.FROBENIUS_COEFF_FP6_C1 ref_bls_fields_fq6.Fp6Config_Fq6Config.FROBENIUS_COEFF_FP6_C1),
+  ("FROBENIUS_COEFF_FP6_C1[i] = xi^((p^i-1)/3), i = 0..5",
+    (arrOf ark_curve_bls12_377.Fp6Config_F6Config.FROBENIUS_COEFF_FP6_C1).length == 6 &&
+    frobOk ((arrOf ark_curve_bls12_377.Fp6Config_F6Config.FROBENIUS_COEFF_FP6_C1).map fp2Of) xi 1 3),
+  ("FROBENIUS_COEFF_FP6_C2 = reference", eqLit p 6 ark_curve_bls12_377.Fp6Config_F6Config.FROBENIUS_COEFF_FP6_C2 ref_bls_fields_fq6.Fp6Config_Fq6Config.FROBENIUS_COEFF_FP6_C2),
+  ("FROBENIUS_COEFF_FP6_C2[i] = xi^((2p^i-2)/3), i = 0..5",
+    (arrOf ark_curve_bls12_377.Fp6Config_F6Config.FROBENIUS_COEFF_FP6_C2).length == 6 &&
+    frobOk ((arrOf ark_curve_bls12_377.Fp6Config_F6Config.FROBENIUS_COEFF_FP6_C2).map fp2Of) xi 2 3),
+  ("Fp12 NONRESIDUE = reference (v)", eqLit p 6 ark_curve_bls12_377.Fp12Config_F12Config.NONRESIDUE ref_bls_fields_fq12.Fp12Config_Fq12Config.NONRESIDUE),
+  ("FROBENIUS_COEFF_FP12_C1 = reference", eqLit p 6 ark_curve_bls12_377.Fp12Config_F12Config.FROBENIUS_COEFF_FP12_C1 ref_bls_fields_fq12.Fp12Config_Fq12Config.FROBENIUS_COEFF_FP12_C1),
+  ("FROBENIUS_COEFF_FP12_C1[i] = xi^((p^i-1)/6), i = 0..11",
+    (arrOf ark_curve_bls12_377.Fp12Config_F12Config.FROBENIUS_COEFF_FP12_C1).length == 12 &&
+    frobOk ((arrOf ark_curve_bls12_377.Fp12Config_F12Config.FROBENIUS_COEFF_FP12_C1).map fp2Of) xi 1 6),
+  ("G1 COFACTOR = reference", ark_curve_bls12_377.CurveConfig_OurG1Config.COFACTOR.limbsVal == ref_bls_curves_g1.CurveConfig_Config.COFACTOR.limbsVal),
+  ("G1 COFACTOR = (x-1)^2/3", ark_curve_bls12_377.CurveConfig_OurG1Config.COFACTOR.limbsVal * 3 == (blsX - 1) ^ 2),
+  ("G1 COFACTOR_INV = reference", eqLit q 4 ark_curve_bls12_377.CurveConfig_OurG1Config.COFACTOR_INV ref_bls_curves_g1.CurveConfig_Config.COFACTOR_INV),
+  ("G1 generator = reference", eqLit p 6 ark_curve_bls12_377.SWCurveConfig_OurG1Config.GENERATOR ref_bls_curves_g1.SWCurveConfig_Config.GENERATOR),
+  ("G1 COEFF_A = 0, COEFF_B = 1 = reference",
+    eqLit p 6 ark_curve_bls12_377.SWCurveConfig_OurG1Config.COEFF_A ref_bls_curves_g1.SWCurveConfig_Config.COEFF_A &&
+    eqLit p 6 ark_curve_bls12_377.SWCurveConfig_OurG1Config.COEFF_B ref_bls_curves_g1.SWCurveConfig_Config.COEFF_B &&
+    fpLit ark_curve_bls12_377.SWCurveConfig_OurG1Config.COEFF_A == 0 && fpLit ark_curve_bls12_377.SWCurveConfig_OurG1Config.COEFF_B == 1),
+  ("G1 generator on y^2 = x^3 + 1", fsq p g1.2 == fadd p (fmul p g1.1 (fsq p g1.1)) 1),
+  ("G1 generator has order q (q*G = O, G != O)", swMul g1 q == none),
+  ("G2 COFACTOR = reference", ark_curve_bls12_377.CurveConfig_OurG2Config.COFACTOR.limbsVal == ref_bls_curves_g2.CurveConfig_Config.COFACTOR.limbsVal),
+  ("G2 COFACTOR_INV = reference", eqLit q 4 ark_curve_bls12_377.CurveConfig_OurG2Config.COFACTOR_INV ref_bls_curves_g2.CurveConfig_Config.COFACTOR_INV),
+  ("G2 generator = reference", eqLit p 6 ark_curve_bls12_377.SWCurveConfig_OurG2Config.GENERATOR ref_bls_curves_g2.SWCurveConfig_Config.GENERATOR),
+  ("G2 COEFF_A, COEFF_B = reference",
+    eqLit p 6 ark_curve_bls12_377.SWCurveConfig_OurG2Config.COEFF_A ref_bls_curves_g2.SWCurveConfig_Config.COEFF_A &&
+    eqLit p 6 ark_curve_bls12_377.SWCurveConfig_OurG2Config.COEFF_B ref_bls_curves_g2.SWCurveConfig_Config.COEFF_B),
+  ("G2 COEFF_B * xi = 1 (D-type twist of y^2 = x^3 + 1)", mul2 (fp2Of ark_curve_bls12_377.SWCurveConfig_OurG2Config.COEFF_B) xi == (1, 0)),
+  ("G2 generator on y^2 = x^3 + B'",
+    (match ark_curve_bls12_377.SWCurveConfig_OurG2Config.GENERATOR with
+     | .tup _ [x, y] =>
+       let X := fp2Of x; let Y := fp2Of y; let B := fp2Of ark_curve_bls12_377.SWCurveConfig_OurG2Config.COEFF_B
+       let x3 := mul2 X (mul2 X X)
+       mul2 Y Y == (fadd p x3.1 B.1, fadd p x3.2 B.2)
+     | _ => false)),
+  ("Bls12Config X, X_IS_NEGATIVE, TWIST_TYPE = reference",
+    ark_curve_bls12_377.Bls12Config_Config.X.limbsVal == ref_bls_curves_mod.Bls12Config_Config.X.limbsVal &&
+    eqLit p 6 ark_curve_bls12_377.Bls12Config_Config.X_IS_NEGATIVE ref_bls_curves_mod.Bls12Config_Config.X_IS_NEGATIVE &&
+    ark_curve_bls12_377.Bls12Config_Config.TWIST_TYPE.natVal == ref_bls_curves_mod.Bls12Config_Config.TWIST_TYPE.natVal),
+  ("BLS12 family: q = x^4 - x^2 + 1 and p = (x-1)^2 (x^4 - x^2 + 1)/3 + x",
+    q == blsX ^ 4 - blsX ^ 2 + 1 && 3 * (p - blsX) == (blsX - 1) ^ 2 * (blsX ^ 4 - blsX ^ 2 + 1)),
+  ("engine fields: Fp modulus = reference base field, Fq modulus = reference scalar field (C17 moduli)",
+    p == 258664426012969094010652733694893533536393512754914660539884262666720468348340822774968888139573360124440321458177 &&
+    q == 8444461749428370424248824938781546531375899335154063827935233455917409239041)]
+
+end C16
 end Model
